@@ -78,4 +78,5 @@ e57b5cb C14
 1f17f67 C06
 300dfe4 C19
 69e04a0 C09
+77c373c C07
 LIST
